@@ -127,7 +127,7 @@ def expect_source_voxel(E, st, prov, vox, dims, msg, zero_fill=None, model=None)
     inp = arr.get(tuple(4 * coords[k] + abc[k] for k in range(nd)))
     want = tuple(clamp(4 * (vox[k] // 4) + abc[k], dims[k]) for k in range(nd))
     if zero_fill is not None:
-        return zero_fill(E, inp, want, abc, msg) and ok
+        return zero_fill(E, inp, tuple(4 * (vox[k] // 4) + abc[k] for k in range(nd)), msg) and ok
     ninp = norm_source(inp, model)
     if ninp is not None:
         inp = ninp
@@ -525,8 +525,22 @@ def segy_item(kind, bs, rate, nb, props, opts=None):
                 for a0, stp, n in ((il0, il_step, n_il), (xl0, xl_step, n_xl)):
                     last = a0 + (n - 1) * stp
                     E.assume(b_and(last >= -2 ** 31, last <= 2 ** 31 - 1))
+            holes = ()
+            if kind == 'irregular':
+                nh = opts.get('holes', 1)
+                hs = []
+                for j in range(nh):
+                    hs.append(int(E.fresh('hole%d' % j, 0 if not hs else hs[-1] + 1, n_il * n_xl - 1)))
+                # every inline and every crossline keeps at least one trace (the property's quantifier)
+                for i in range(n_il):
+                    if all((i * n_xl + x) in hs for x in range(n_xl)):
+                        raise Infeasible()
+                for x in range(n_xl):
+                    if all((i * n_xl + x) in hs for i in range(n_il)):
+                        raise Infeasible()
+                holes = tuple(hs)
             model = shsegy.SegyModel(kind, n_s, fmt=fmt, ext=ext, n_il=n_il, n_xl=n_xl, il0=il0, il_step=il_step, xl0=xl0, xl_step=xl_step,
-                                     varying=varying, consts=consts, t0_ms=t0_ms, dt_ms=dt_ms)
+                                     varying=varying, consts=consts, t0_ms=t0_ms, dt_ms=dt_ms, holes=holes)
             dims = (n_il, n_xl, n_s)
         if H:
             ntr_c = model.tracecount if not is_sym(model.tracecount) else None
@@ -647,7 +661,78 @@ def finish_segy(E, mm, fs, st, model, dims, bs, rate, props, opts, window, H):
             check_axes(E, r, dims, model.il0, model.il_step, model.xl0, model.xl_step, model.t0_ms, model.dt_ms, label)
     if 'C11' in props:
         check_window(E, mm, st, model, dims, bs, rate, win, label, H)
+    if 'C08' in props:
+        check_irregular(E, mm, st, model, dims, bs, rate, label, dict(opts, _H=H))
     return stored
+
+
+def check_irregular(E, mm, st, model, dims, bs, rate, label, opts):
+    """C08: inferred grid, trace identity, zero-filled holes."""
+    import segyio
+    R = mm['read']
+    holes = [int(h) for h in model.holes]
+    n_il, n_xl, n_s = dims
+    part = opts.get('part', 'geometry')
+    if opts.get('detection', 'heuristic') == 'heuristic':
+        assume_heuristic_precondition(E, model, opts.get('_H', {}), False)
+    with Quiet():
+        r = R.SgzReader(shenv.ShimFile(st))
+    E.reached(label + ':irregular')
+
+    def zero_fill(E, inp, raw, msg):
+        gi, gx, z = raw
+        inside = b_and(gi < n_il, gx < n_xl, z < n_s)
+        present = b_and(inside, *[b_not(gi * n_xl + gx == h) for h in holes])
+        if present is True or (present is not False and bool(present)):
+            ninp = norm_source(inp, model)
+            if ninp is None:
+                return E.check(False, msg + ': a cell input at a populated grid position is not a source sample (%s)' % (inp[0] if isinstance(inp, tuple) and inp else type(inp).__name__))
+            return E.check(b_and(ninp[1] == gi, ninp[2] == gx, ninp[3] == z), msg + ': a populated grid position holds the trace with that inline / crossline number')
+        return E.check(isinstance(inp, tuple) and inp == ('zero',), msg + ': holes and padding are zero before compression (%s)' % (inp[0] if isinstance(inp, tuple) and inp else type(inp).__name__))
+
+    if part == 'geometry':
+        E.check(b_and(r.n_ilines == n_il, r.n_xlines == n_xl, r.n_samples == n_s), label + ': grid dimensions are the inferred ones')
+        E.check(r.tracecount == model.tracecount, label + ': trace count is the number of source traces')
+        E.check(bool(r.structured) is False, label + ': structured flag is False')
+        for name, ax, n, a0, stp in (('ilines', r.ilines, n_il, model.il0, model.il_step), ('xlines', r.xlines, n_xl, model.xl0, model.xl_step)):
+            k = E.fresh('k_' + name, 0)
+            E.assume(b_and(k < n, k < ax.shape[0]))
+            E.check(b_and(ax.shape[0] == n, aget(ax, k) == a0 + k * stp), label + ': %s = range of numbers present with its own increment' % name)
+        # tracefield grid with zeros at holes
+        for f in (189, 193):
+            with Quiet():
+                g = r.get_tracefield_values(f)
+            q = [E.fresh('g0', 0), E.fresh('g1', 0)]
+            E.assume(b_and(q[0] < n_il, q[1] < n_xl))
+            got = g.get(tuple(q)) if isinstance(g, LazyArr) else None
+            pos = q[0] * n_xl + q[1]
+            is_hole = b_or(*[pos == h for h in holes]) if holes else False
+            if is_hole is True or (is_hole is not False and bool(is_hole)):
+                E.check(got == 0, label + ': get_tracefield_values is 0 at holes')
+            else:
+                want = (model.il0 + q[0] * model.il_step) if f == 189 else (model.xl0 + q[1] * model.xl_step)
+                E.check(got == want, label + ': get_tracefield_values holds the header value at populated positions')
+    if part == 'traces':
+        t = E.fresh('trace', 0)
+        E.assume(t < model.tracecount)
+        with Quiet():
+            tr = r.get_trace(t)
+        z = E.fresh('z', 0)
+        E.assume(b_and(z < n_s, z < tr.shape[0]))
+        E.check(tr.shape[0] == n_s, label + ': trace length')
+        gi, gx = model.il_x_of(t)
+        expect_source_voxel(E, st, tr.get((z,)), (gi, gx, z), dims, label + ': trace i is the i-th source trace', zero_fill=zero_fill, model=model)
+        with Quiet():
+            h = r.gen_trace_header(t)
+        for f in ((189, 193, 1) if opts.get('detection', 'heuristic') == 'heuristic' else (189, 193, 73, 1)):
+            v = h[segyio.tracefield.TraceField(f)]
+            E.check((not isinstance(v, tuple)) and (v == model.header_value(t, f)), label + ': header i is the i-th source header (field %d)' % f)
+    if part == 'volume':
+        v = [E.fresh(n, 0) for n in ('i', 'x', 'z')]
+        E.assume(b_and(*[v[k] < dims[k] for k in range(3)]))
+        with Quiet():
+            vox = r.read_subvolume(v[0], v[0] + 1, v[1], v[1] + 1, v[2], v[2] + 1)
+        expect_source_voxel(E, st, vox.get((0, 0, 0)), v, dims, label + ': volume voxel', zero_fill=zero_fill, model=model)
 
 
 def source_trace_of(model, dims, win, t):
@@ -659,6 +744,20 @@ def source_trace_of(model, dims, win, t):
     return (win[0] + i) * dims[1] + (win[2] + x)
 
 
+def assume_heuristic_precondition(E, model, H, is2d):
+    """The property's precondition for 'heuristic' detection: every field is constant or differs between the first and
+    the last trace, and no two differing fields coincide on both."""
+    last = model.tracecount - 1
+    fs = sorted(H)
+    for f in fs:
+        E.assume(b_not(H[f](0) == H[f](last)))
+    geo = [] if is2d else [189, 193]
+    allv = [(f, model.header_value(0, f), model.header_value(last, f)) for f in fs + geo]
+    for a in range(len(allv)):
+        for b in range(a):
+            E.assume(b_not(b_and(allv[a][1] == allv[b][1], allv[a][2] == allv[b][2])))
+
+
 def check_segy_headers(E, mm, st, model, dims, detection, label, H, win=None):
     """C04: every one of the 89 fields of every trace reads back as in the source; file headers byte-identical."""
     import segyio
@@ -666,17 +765,7 @@ def check_segy_headers(E, mm, st, model, dims, detection, label, H, win=None):
     is2d = model.kind == '2d'
     n_out = dims[0] if is2d else ((win[1] - win[0]) * (win[3] - win[2]) if win else dims[0] * dims[1])
     if detection == 'heuristic':
-        # the property's precondition for the heuristic mode: every field is constant or differs between the first and
-        # the last trace, and no two differing fields coincide on both
-        last = model.tracecount - 1
-        fs = sorted(H)
-        for f in fs:
-            E.assume(b_not(H[f](0) == H[f](last)))
-        geo = [] if is2d else [189, 193]
-        allv = [(f, model.header_value(0, f), model.header_value(last, f)) for f in fs + geo]
-        for a in range(len(allv)):
-            for b in range(a):
-                E.assume(b_not(b_and(allv[a][1] == allv[b][1], allv[a][2] == allv[b][2])))
+        assume_heuristic_precondition(E, model, H, is2d)
     with Quiet():
         r = R.SgzReader(shenv.ShimFile(st))
     t = E.fresh('hdr_trace', 0)
@@ -853,6 +942,26 @@ def items_for(prop, tier):
                         solver_ms=10000 if quick else 60000)
                 it.meta = dict(kind='numpy', bs=[4, 4, 256], rate=8, nb=[2, 2, 1], opts=dict(o), prop=prop)
                 items.append(it)
+    if prop == 'C08':
+        from .runner import Item as _I
+        cfgs = []
+        for part in ('geometry', 'traces', 'volume'):
+            for (il0, ils, xl0, xls) in ((10, 2, 20, 3), (0, 1, 5, 1), (-7, 3, -4, 2)) if not quick else ((10, 2, 20, 3), (0, 1, 5, 2), (-7, 3, -4, 2)):
+                for nh in (1, 2):
+                    if quick and nh == 2 and part != 'traces':
+                        continue
+                    if quick and il0 < 0 and (part != 'traces' or nh == 2):
+                        continue
+                    cfgs.append(((4, 4, 256), 8, (1, 1, 1), dict(part=part, holes=nh, il0=il0, il_step=ils, xl0=xl0, xl_step=xls, ilxl=(3, 4), varying=(73,), dimcap=4, ns_cap=3)))
+            cfgs.append(((4, 4, 256), 8, (2, 1, 1), dict(part=part, holes=1, il0=10, il_step=2, xl0=20, xl_step=3, ilxl=(6, 3), varying=(73,), dimcap=4, ns_cap=3)))
+        if not quick:
+            cfgs.append(((8, 8, 64), 8, (1, 1, 2), dict(part='volume', holes=1, il0=10, il_step=2, xl0=20, xl_step=3, ilxl=(3, 4), dimcap=4)))
+            cfgs.append(((4, 4, 256), 8, (1, 1, 1), dict(part='traces', holes=1, il0=10, il_step=2, xl0=20, xl_step=3, ilxl=(3, 4), detection='thorough', dimcap=4)))
+        for bs, rate, nb, o in cfgs:
+            desc = 'segy-irregular|C08|bs=%s|nb=%s|%s' % ('x'.join(map(str, bs)), 'x'.join(map(str, nb)), ','.join('%s=%s' % kv for kv in sorted(o.items())))
+            it = _I(desc, (lambda bs=bs, rate=rate, nb=nb, o=o: segy_item('irregular', bs, rate, nb, {'C08'}, o)), timeout_s=250 if quick else 1500)
+            it.meta = dict(kind='segy-irregular', bs=list(bs), rate=rate, nb=list(nb), opts=dict(o), prop='C08')
+            items.append(it)
     if prop == 'C20':
         from .runner import Item as _I
         it = _I('numpy|C20|runs=2|bs=4x4x256|rate=8|nb=2x1x1', (lambda: numpy_item((4, 4, 256), 8, (2, 1, 1), {'C20'}, dict(runs=2))), timeout_s=200)
